@@ -395,3 +395,64 @@ func specIsRejectErr(err error) bool { _, ok := err.(*RejectError); return ok }
 //@                 result == ErrNotSelectedState && zzCalls("hsms.(*ConnectionMetrics).incDataMsgDropNotSelected") == 1
 //@ ensures [ctl]   !specIsData(msg) ==> zzCalls("hsms.(*ConnectionMetrics).incDataMsgDropNotSelected") == 0
 //@ ensures [queue] zzCalls("chan.send") <= 1 && (zzCalls("chan.send") == 1 ==> result == nil)
+
+// ---- session entry points: every data send is built by NewDataMessage (so an invalid combination or an item that
+//      carries a deferred error never reaches the transport runtime) and makes at most one runtime call ----
+
+func specBadData(stream, function byte, w bool, item secs2.Item) bool {
+	return stream > 127 || (w && function%2 == 0) || specItemErr(item) != nil
+}
+
+//@ func (*sysBytesGen).next
+//@ trusted
+
+//@ func (*session).SendDataMessage
+//@ nosafety nil-deref nil-iface
+//@ requires s != nil
+//@ emits hsms.(TransportRuntime).WriteMessage, hsms.(TransportRuntime).SendAsync, hsms.(TransportRuntime).WriteMessageNoReply
+//@ ensures [gate] specBadData(stream, function, replyExpected, item) ==> result1 != nil && result0 == nil && zzCalls("hsms.(TransportRuntime).WriteMessage") == 0
+//@ ensures [once] zzCalls("hsms.(TransportRuntime).WriteMessage") <= 1 && zzCalls("hsms.(TransportRuntime).SendAsync") == 0 && zzCalls("hsms.(TransportRuntime).WriteMessageNoReply") == 0
+//@ ensures [sent] !specBadData(stream, function, replyExpected, item) ==> zzCalls("hsms.(TransportRuntime).WriteMessage") == 1
+
+//@ func (*session).SendDataMessageAsync
+//@ nosafety nil-deref nil-iface
+//@ requires s != nil
+//@ emits hsms.(TransportRuntime).WriteMessage, hsms.(TransportRuntime).SendAsync, hsms.(TransportRuntime).WriteMessageNoReply
+//@ ensures [gate] specBadData(stream, function, replyExpected, item) ==> result != nil && zzCalls("hsms.(TransportRuntime).SendAsync") == 0
+//@ ensures [once] zzCalls("hsms.(TransportRuntime).SendAsync") <= 1 && zzCalls("hsms.(TransportRuntime).WriteMessage") == 0 && zzCalls("hsms.(TransportRuntime).WriteMessageNoReply") == 0
+
+//@ func (*session).ReplyDataMessage
+//@ nosafety nil-deref nil-iface
+//@ requires s != nil && primary != nil
+//@ emits hsms.(TransportRuntime).WriteMessage, hsms.(TransportRuntime).SendAsync, hsms.(TransportRuntime).WriteMessageNoReply
+//@ ensures [gate] specItemErr(item) != nil || primary.header[2]&0x7F > 127 ==> result != nil && zzCalls("hsms.(TransportRuntime).SendAsync") == 0
+//@ ensures [once] zzCalls("hsms.(TransportRuntime).SendAsync") <= 1 && zzCalls("hsms.(TransportRuntime).WriteMessage") == 0 && zzCalls("hsms.(TransportRuntime).WriteMessageNoReply") == 0
+
+//@ func (*session).ForwardDataMessage
+//@ nosafety nil-deref nil-iface
+//@ requires s != nil
+//@ emits hsms.(TransportRuntime).WriteMessage, hsms.(TransportRuntime).SendAsync, hsms.(TransportRuntime).WriteMessageNoReply
+//@ ensures [nil]  msg == nil ==> result == ErrNilMessage && zzCalls("hsms.(TransportRuntime).WriteMessageNoReply") == 0
+//@ ensures [once] zzCalls("hsms.(TransportRuntime).WriteMessageNoReply") <= 1 && zzCalls("hsms.(TransportRuntime).WriteMessage") == 0 && zzCalls("hsms.(TransportRuntime).SendAsync") == 0
+
+//@ func (*session).ForwardDataMessageAsync
+//@ nosafety nil-deref nil-iface
+//@ requires s != nil
+//@ emits hsms.(TransportRuntime).WriteMessage, hsms.(TransportRuntime).SendAsync, hsms.(TransportRuntime).WriteMessageNoReply
+//@ ensures [nil]  msg == nil ==> result == ErrNilMessage && zzCalls("hsms.(TransportRuntime).SendAsync") == 0
+//@ ensures [once] zzCalls("hsms.(TransportRuntime).SendAsync") <= 1 && zzCalls("hsms.(TransportRuntime).WriteMessage") == 0 && zzCalls("hsms.(TransportRuntime).WriteMessageNoReply") == 0
+
+// The runtime methods the session calls are the connection methods proved above.
+//@ func (*connection).WriteMessage
+//@ nosafety nil-deref nil-iface
+//@ requires c != nil && msg != nil
+//@ emits hsms.(transport).Write, hsms.(*ConnectionMetrics).incDataMsgSend, hsms.(*connection).dropNotSelected, hsms.(*ConnectionMetrics).incDataMsgDropNotSelected, hsms.(*connection).TCPDown, IsSelected:true, IsSelected:false, hsms.(*ConnectionMetrics).incDataMsgInflight, hsms.(*ConnectionMetrics).decDataMsgInflight, hsms.(*ConnectionMetrics).incDataMsgErr, hsms.(*connection).sendAutoS9F9, hsms.(*replyRegistry).register, hsms.(*replyRegistry).deregister
+//@ ensures [gate] specIsData(msg) && zzCalls("IsSelected:false") > 0 ==> zzCalls("hsms.(transport).Write") == 0 &&
+//@                result1 == ErrNotSelectedState && zzCalls("hsms.(*ConnectionMetrics).incDataMsgDropNotSelected") == 1
+
+//@ func (*connection).WriteMessageNoReply
+//@ nosafety nil-deref nil-iface
+//@ requires c != nil && msg != nil
+//@ emits hsms.(transport).Write, hsms.(*ConnectionMetrics).incDataMsgSend, hsms.(*connection).dropNotSelected, hsms.(*ConnectionMetrics).incDataMsgDropNotSelected, hsms.(*connection).TCPDown, IsSelected:true, IsSelected:false, hsms.(*ConnectionMetrics).incDataMsgErr
+//@ ensures [gate] specIsData(msg) && zzCalls("IsSelected:false") > 0 ==> zzCalls("hsms.(transport).Write") == 0 &&
+//@                result == ErrNotSelectedState && zzCalls("hsms.(*ConnectionMetrics).incDataMsgDropNotSelected") == 1
